@@ -27,7 +27,7 @@ pub const GEN_NAMES: [&str; 13] = ["random", "low", "high", "pad-lookalike", "mo
 /// layer (byte order marks, GS1 / ECI / AIM escapes, control characters, Shift-JIS and UTF-8
 /// multi-byte sequences). The first group is used as a PREFIX half of the time: content-dependent
 /// behaviour usually keys on how a payload starts.
-const BYTE_PREFIXES: &[&[u8]] = &[
+pub const BYTE_PREFIXES: &[&[u8]] = &[
     b"https://", b"http://", b"HTTPS://", b"HTTP://", b"Https://", b"www.", b"WWW.", b"ftp://", b"mailto:", b"MAILTO:", b"tel:+", b"TEL:", b"sms:", b"SMSTO:",
     b"geo:", b"WIFI:T:WPA;S:", b"WIFI:S:", b"BEGIN:VCARD\nVERSION:3.0\n", b"BEGIN:VEVENT\n", b"MECARD:N:", b"MATMSG:TO:", b"bitcoin:", b"otpauth://totp/",
     b"BCD\n002\n1\nSCT\n", b"\xEF\xBB\xBF", b"\xFF\xFE", b"\xFE\xFF", b"\xEF\xBB", b"]C1", b"]Q3", b"]d2", b"\\000026", b"\x1d", b"[)>\x1e06\x1d", b"%PDF-", b"<?xml ", b"{\"", b"data:image/png;base64,",
@@ -38,7 +38,7 @@ const BYTE_TOKENS: &[&[u8]] = &[
     b";P:", b";H:true", b"END:VCARD", b"FN:", b"TEL;TYPE=CELL:", b"\xE6\x97\xA5\xE6\x9C\xAC", b"\xC3\xA9", b"\xF0\x9F\x98\x80", b"\x93\xFA\x96\x7B", b"\xE4\xAA", b"\x81\x40",
     b"\xEF\xBB\xBF", b"\xEC\x11", b"\x11\xEC", b"\xEC", b"\x40", b"\x20", b"\x10", b"\x70", b"\x80", b"\xFF", b"0123456789", b"ABCDEFGHIJKLMNOPQRSTUVWXYZ", b"abcdefghijklmnopqrstuvwxyz", b"+33612345678", b"1234",
 ];
-const ALNUM_PREFIXES: &[&[u8]] = &[
+pub const ALNUM_PREFIXES: &[&[u8]] = &[
     b"HTTPS://", b"HTTP://", b"WWW.", b"FTP://", b"MAILTO:", b"TEL:+", b"TEL:", b"SMSTO:", b"SMS:", b"GEO:", b"WIFI:T:WPA", b"WIFI:S:", b"BEGIN:VCARD", b"MECARD:N:", b"MATMSG:TO:", b"URN:", b"BITCOIN:",
     b"%", b"$", b" ", b"*", b"+", b"-", b".", b"/", b":", b"0", b"00", b"A", b"Z", b"9:", b"1/2", b"3.14", b"-1", b"$100", b"100%",
     b"12:34:56", b"2024:06:30:23:59", b"00:00:00:00", b"192.168.0.1:8080", b"1-800-555-0199", b"+1 555 0100", b"0123456789:", b"99999999:9999999",
@@ -144,7 +144,7 @@ pub struct Job {
     pub payload: Option<Vec<u8>>,
 }
 
-fn alphabet(class: usize, k: usize) -> u8 {
+pub fn alphabet(class: usize, k: usize) -> u8 {
     match class {
         0 => b'0' + (k % 10) as u8,
         1 => tables::alnum_char(k % 45),
